@@ -20,9 +20,9 @@ CONSTANTS
   DlOffs = {0, 1}
   MaxNow = 2
   Senders = {"u1"}
-  Recipients = {"u1", "feepool", "module"}
+  Recipients = {"u1", "feepool"}
   MaxSteps = 100
-  DonateAlso = {"module", "feepool"}
+  DonateAlso = {}
   WithUni = TRUE
 VIEW View
 INVARIANTS
